@@ -93,15 +93,38 @@ type T struct{ K, V string }
 type Case struct {
 	Refs []int64
 	Tags []T
+	// Filler unrelated tags (fill00=x, ...) are spread over the tag list.
+	Filler int
+	// Annot: annotations on the way nodes (none of which the rules mention):
+	// 0 none; 1 every node annotated from its position (a closing node repeats
+	// the id but not the annotation of the first); 2 only the first node
+	// annotated; 3 all annotated, consistently per id.
+	Annot int
 }
 
 func (c Case) way() *osm.Way {
 	w := &osm.Way{ID: 1, Version: 1, Visible: true}
-	for _, r := range c.Refs {
-		w.Nodes = append(w.Nodes, osm.WayNode{ID: osm.NodeID(r)})
+	for i, r := range c.Refs {
+		wn := osm.WayNode{ID: osm.NodeID(r)}
+		switch {
+		case c.Annot == 1, c.Annot == 2 && i == 0:
+			wn.Version, wn.ChangesetID, wn.Lat, wn.Lon = i+1, osm.ChangesetID(10+i), float64(i)+0.5, float64(i)+1.5
+		case c.Annot == 3:
+			wn.Version, wn.ChangesetID, wn.Lat, wn.Lon = int(r), osm.ChangesetID(r), float64(r)+0.5, float64(r)+1.5
+		}
+		w.Nodes = append(w.Nodes, wn)
 	}
 	for _, t := range c.Tags {
 		w.Tags = append(w.Tags, osm.Tag{Key: t.K, Value: t.V})
+	}
+	for i := 0; i < c.Filler; i++ {
+		// spread deterministically: alternately in front and at the end
+		ft := osm.Tag{Key: fmt.Sprintf("fill%02d", i), Value: "x"}
+		if i%2 == 0 {
+			w.Tags = append(osm.Tags{ft}, w.Tags...)
+		} else {
+			w.Tags = append(w.Tags, ft)
+		}
 	}
 	return w
 }
@@ -260,7 +283,7 @@ func TestRandomTagSets(t *testing.T) {
 	allKeys = append(allKeys, "area", "name", "source", "created_by", "note", "type")
 	harness.Run(t, harness.Spec[Case]{
 		Name: "random-tag-sets", N: 20000,
-		Rule: "random tag sets (unique keys) of 0..7 tags over the rule keys, area and unrelated keys with values from listed/unlisted/no/empty, in random order, on closed and open node lists; oracle = rule text on the tag map and invariance of the answer under a drawn permutation of the tags; non-trivial = closed way with >3 refs and at least two rule keys present",
+		Rule: "random tag sets (unique keys) of 0..7 tags over the rule keys, area and unrelated keys with values from listed/unlisted/no/empty, in random order, a quarter padded with 1..60 unrelated tags (around the number of rules), on closed and open node lists whose way nodes carry no, partial, per-position or per-id annotations; oracle = rule text on the tag map and invariance of the answer under a drawn permutation of the tags; non-trivial = closed way with >3 refs and at least two rule keys present",
 		Gen: func(t *rapid.T) Case {
 			c := Case{Refs: rapid.SampledFrom(nodeShapes).Draw(t, "shape")}
 			if rapid.IntRange(0, 3).Draw(t, "closed") != 0 {
@@ -277,6 +300,10 @@ func TestRandomTagSets(t *testing.T) {
 				pool = append(pool, "yes", "no", "", "unlisted_value", "other")
 				c.Tags = append(c.Tags, T{k, rapid.SampledFrom(pool).Draw(t, "v")})
 			}
+			if rapid.IntRange(0, 3).Draw(t, "filler?") == 0 {
+				c.Filler = rapid.SampledFrom([]int{1, 5, 15, 19, 20, 24, 25, 26, 27, 30, 60}).Draw(t, "filler")
+			}
+			c.Annot = rapid.SampledFrom([]int{0, 0, 1, 2, 3}).Draw(t, "annot")
 			return c
 		},
 		Check: func(c Case) error {
@@ -284,7 +311,7 @@ func TestRandomTagSets(t *testing.T) {
 				return err
 			}
 			// permutation invariance
-			p := Case{Refs: c.Refs}
+			p := Case{Refs: c.Refs, Filler: c.Filler, Annot: c.Annot}
 			for i := len(c.Tags) - 1; i >= 0; i-- {
 				p.Tags = append(p.Tags, c.Tags[i])
 			}
